@@ -24,6 +24,17 @@ CLAIMS = {
          "equal real parts of the operands give equal real parts of the results; forwarded operations return exactly the inner number's operation; ==, partial_cmp on the four field-compatible types and "
          "is_zero/is_one/is_positive/is_negative on all types are functions of the real parts. The implementation is exercised on triples (A, same-real-part B, plain float). Partial: closeness of "
          "tan/tanh/div/powers/sph_j* real parts to the float functions is tested (ulp bound), not proved."),
+ 'C07': ("Coq proof: every operation and every sequence of compound assignments maps numerically-equal operands (absent = zero) to numerically-equal results; bit-exact correspondence",
+         "veq x y says every part of x and y has the same numerical value, an absent part reading as zero, whatever mixture of absent / explicit-zero representation each uses. Theorems "
+         "(Props/C07.v, 84) for DualVec, Dual2Vec and HyperDualVec over the reals: + - neg * / and each of the 22 elementary functions map veq operands to veq results (every direction, dimension "
+         "and presence pattern, shape premises proved invariant), and so does every finite sequence of compound assignments applied to an accumulator (induction over the operation list with veq "
+         "as invariant). They are derived from what C02/C01 prove about the regenerated code. The implementation is run on absent / dense / mixed encodings of the same operands and on random "
+         "assignment histories, compared part by part. Partial: numerical equality on floats (0*x, x+0) is tested, not proved; powers/conversions/drivers are covered by the test only."),
+ 'C08': ("Coq proof: forwarding forms, constants, sum/product, mul_add, inv for an arbitrary scalar instance (bit-exact, all nestings); assign/scalar forms against the lifted constant over R; bit-exact correspondence",
+         "Theorems (Props/C08.v, 472). For an arbitrary interpretation of the scalar interface (abstract F, T, any DN instance -- hence bit-exact and valid at every nesting level): the by-value/by-reference "
+         "forms of + - * / and neg equal the canonical form, x*=y is x*y, x/=y is x/y, scalar binary forms equal their compound forms, inv = recip, mul_add x a b = x*a+b, iterator sum/product are "
+         "left folds from zero/one, From<F>, zero, one, the sixteen FloatConst constants and every FromPrimitive constructor are from_re of the inner constant and from_re has zero/absent derivative "
+         "parts. Over the reals, for every type and part: x+=y, x-=y equal x+y, x-y, and x o f equals x o lift f for + - * / (f <> 0). The implementation is run on all forms with identical operands."),
 }
 props = [json.loads(l) for l in open('/verif/properties.jsonl')]
 checks = []
